@@ -296,8 +296,12 @@ class RangesAssembler:
                 inputs = [self.output]
                 if sh.SELF in self.inputs:
                     inputs.append(sh.SELF)
+                # No distance: a value supplied through the range reaches its
+                # cells as if supplied to them, before any formula is computed.
                 dsp.add_function(
-                    None, InvRangesAssembler(self), inputs, self.outputs
+                    None, InvRangesAssembler(self), inputs, self.outputs,
+                    weight=0, inp_weight=dict.fromkeys(inputs, 0),
+                    out_weight=dict.fromkeys(self.outputs, 0)
                 )
                 d = dsp.nodes[self.output]
                 d['inv-data'] = set(self.outputs)
